@@ -1,4 +1,5 @@
 import Gaftools.Props.C15
+import Gaftools.Proofs.BiccLemmas
 /-!
 # C15 (biccs) — towards exactness of the iterative Hopcroft–Tarjan routine
 
@@ -18,12 +19,12 @@ theorem biccsFrom_eq (nb : V → List V) (root : V) (fuel : Nat) :
       ((bgo nb fuel (binit nb root)).comps,
        if (bgo nb fuel (binit nb root)).rootChildren > 1 then insertSet root (bgo nb fuel (binit nb root)).aps
        else (bgo nb fuel (binit nb root)).aps) := by
-  sorry
+  rfl
 
 /-- RUNG 1 — the fuel `2|V| + 4|E| + 2` always suffices: the loop has terminated (empty stack) -/
 theorem bgo_terminates (nb : V → List V) (Vs : List V) (hu : Undirected nb Vs) (hd : Vs.Nodup) (root : V) (hr : root ∈ Vs) :
-    (bgo nb (biccFuel nb Vs) (binit nb root)).stack = [] := by
-  sorry
+    (bgo nb (biccFuel nb Vs) (binit nb root)).stack = [] :=
+  Gaftools.Proofs.Bicc.terminates nb Vs hu root hr
 
 /-- RUNG 2 — every node of a connected graph is discovered exactly once -/
 theorem bgo_visits_all (nb : V → List V) (Vs : List V) (hu : Undirected nb Vs) (hd : Vs.Nodup) (root : V) (hr : root ∈ Vs)
